@@ -21,6 +21,7 @@ import (
 	"net/http"
 	"os"
 	"path/filepath"
+	"strconv"
 	"sync"
 	"time"
 )
@@ -70,6 +71,28 @@ func main() {
 	// paths below /trunc/ are served with the full Content-Length of the file but only the first half of its bytes, after which the
 	// connection is closed: a transfer that dies midway (flaky proxy, reset connection)
 	fs := http.HandlerFunc(func(w http.ResponseWriter, req *http.Request) {
+		// paths below /status/<code>/ are answered with that status: 206 with the first half of the file (a range answer nobody asked for),
+		// 204 and 205 without a body, any other code with the whole file
+		const spfx = "/status/"
+		if len(req.URL.Path) > len(spfx)+4 && req.URL.Path[:len(spfx)] == spfx && req.URL.Path[len(spfx)+3] == '/' {
+			code, cerr := strconv.Atoi(req.URL.Path[len(spfx) : len(spfx)+3])
+			data, err := os.ReadFile(filepath.Join(dir, filepath.FromSlash(req.URL.Path[len(spfx)+4:])))
+			if err != nil || cerr != nil {
+				http.NotFound(w, req)
+				return
+			}
+			switch code {
+			case 204, 205:
+				data = nil
+			case 206:
+				w.Header().Set("Content-Range", fmt.Sprintf("bytes 0-%d/%d", len(data)/2-1, len(data)))
+				data = data[:len(data)/2]
+			}
+			w.Header().Set("Content-Type", "text/plain")
+			w.WriteHeader(code)
+			w.Write(data)
+			return
+		}
 		const pfx = "/trunc/"
 		if len(req.URL.Path) <= len(pfx) || req.URL.Path[:len(pfx)] != pfx {
 			plain.ServeHTTP(w, req)
